@@ -296,7 +296,7 @@ def callSelect : Nat → SStack → Nat → List Expr → List String → List E
     | source :: transform :: _ =>
       if !isLam transform then .error (.internal "AssertionError") else do
         let (parent, c1) ← simp fuel st c source
-        let dflt : Except Err (Expr × Nat) := do
+        let dflt : Unit → Except Err (Expr × Nat) := fun _ => do
           let (sel, c2) ← simp fuel st c1 transform
           pure (makeSelect parent sel, c2)
         match opCall? parent with
@@ -317,8 +317,8 @@ def callSelect : Nat → SStack → Nat → List Expr → List String → List E
                   simp fuel st c1 (fcall "SelectMany" [src, .lam fps (makeSelect fb transform)])
                 | _ => .error (.internal "AssertionError"))
              | _ => .error (.internal "IndexError"))
-          else dflt
-        | Option.none => dflt
+          else dflt ()
+        | Option.none => dflt ()
     | _ => .error (.internal "IndexError")
 def callSelectMany : Nat → SStack → Nat → List Expr → List String → List Expr → Except Err (Expr × Nat)
   | 0, _, _, _, _, _ => .error .fuel
@@ -327,7 +327,7 @@ def callSelectMany : Nat → SStack → Nat → List Expr → List String → Li
     | source :: selection :: _ =>
       if !isLam selection then .error (.internal "AssertionError") else do
         let (parent, c1) ← simp fuel st c source
-        let dflt : Except Err (Expr × Nat) := do
+        let dflt : Unit → Except Err (Expr × Nat) := fun _ => do
           let (sel, c2) ← simp fuel st c1 selection
           pure (fcall "SelectMany" [parent, sel], c2)
         match opCall? parent with
@@ -349,8 +349,8 @@ def callSelectMany : Nat → SStack → Nat → List Expr → List String → Li
                  let (sel, c3) ← simp fuel st c2 conv
                  pure (fcall "SelectMany" [seq, sel], c3)
              | _ => .error (.internal "AssertionError"))
-          else dflt
-        | Option.none => dflt
+          else dflt ()
+        | Option.none => dflt ()
     | _ => .error (.internal "IndexError")
 def callWhere : Nat → SStack → Nat → List Expr → List String → List Expr → Except Err (Expr × Nat)
   | 0, _, _, _, _, _ => .error .fuel
@@ -359,7 +359,7 @@ def callWhere : Nat → SStack → Nat → List Expr → List String → List Ex
     | source :: filter :: _ =>
       if !isLam filter then .error (.internal "AssertionError") else do
         let (parent, c1) ← simp fuel st c source
-        let dflt : Except Err (Expr × Nat) := do
+        let dflt : Unit → Except Err (Expr × Nat) := fun _ => do
           let (f', c2) ← simp fuel st c1 filter
           if lambdaIsTrue f' then pure (parent, c2) else pure (fcall "Where" [parent, f'], c2)
         match opCall? parent with
@@ -388,8 +388,8 @@ def callWhere : Nat → SStack → Nat → List Expr → List String → List Ex
                   simp fuel st c1 (fcall "SelectMany" [seq, .lam fps (fcall "Where" [fb, filter])])
                 | _ => .error (.internal "AssertionError"))
              | _ => .error (.internal "IndexError"))
-          else dflt
-        | Option.none => dflt
+          else dflt ()
+        | Option.none => dflt ()
     | _ => .error (.internal "IndexError")
 end
 
